@@ -78,3 +78,18 @@ def umul_rewrite(text, variables):
         n[0] += 1
         return e
     return chain.sub(rep, text), n[0]
+
+
+def loop_body(text, ordinal):
+    """text of the braced body of the loop with the given ordinal in an already C-ified function text"""
+    masked = extract.mask_noncode(text)
+    loops = [m for m in re.finditer(r'\b(for|while)\s*\(', masked)]
+    if ordinal >= len(loops):
+        raise extract.ExtractError('M2-body: loop ordinal %d not found' % ordinal)
+    m = loops[ordinal]
+    pc = extract.match_close(masked, m.end() - 1, '(', ')')
+    j = pc + 1
+    while masked[j] in ' \t\n':
+        j += 1
+    e = extract.match_close(masked, j, '{', '}')
+    return text[j:e + 1], text[m.end():pc]
